@@ -955,7 +955,10 @@ def real_access(r, acc, e):
         return real_access(dup, acc["sub"], e)
     try:
         if a == "feats":
-            f = r.feats
+            try:
+                f = r.feats
+            except AttributeError:
+                return {"e": "AttributeError", "at": "attr"}     # the row has no `feats` at all (distinguished from feats.<sub> raising)
             fe = None
             if e is not None:
                 try:
@@ -964,7 +967,11 @@ def real_access(r, acc, e):
                     fe = None
             return real_access(f, acc["sub"], fe)
         if a == "label":
-            return val(canon_val(r.label))
+            try:
+                lab = r.label
+            except AttributeError:
+                return {"e": "AttributeError", "at": "attr"}
+            return val(canon_val(lab))
         if a == "tipe":
             return val(canon_val(r.tipe))
         if a == "len":
@@ -1134,6 +1141,12 @@ def touches_label_part(acc):
     return acc["a"] in ("feats", "label", "tipe")
 
 
+def lnl_sig(sig):
+    """the two symptoms of the forced hypothesis `label stage last`: a stale value (the unrepaired __getattr__ forwards
+    feats/label through later wrappers; fixes/C13-stale-feats-label.diff) / AttributeError (the repaired code: no answer at all)"""
+    return sig.endswith(":label-not-last") or sig.endswith(":label-not-last-raises")
+
+
 def effective(st):
     """does the stage wrap / change the rows at all"""
     if st["op"] == "drop":
@@ -1158,7 +1171,7 @@ def strip(acc):
 
 
 def known_sig(sig):
-    return sig.endswith(":label-not-last") or open_sig(sig)
+    return lnl_sig(sig) or open_sig(sig)
 
 
 def leaf_how(acc):
@@ -1191,7 +1204,10 @@ def areas(case, acc):
     lp = label_pos(stages)
     out = []
     if acc is not None and lp is not None and touches_label_part(acc) and any(effective(st) for st in stages[lp + 1:]):
-        out.append(("%s:label-not-last" % kind, lambda how, err, exp: True))
+        # the repaired wrappers do not pass feats / label / labeled on (AttributeError): never a wrong value, but no value either
+        out.append(("%s:label-not-last-raises" % kind, lambda how, err, exp: err == "AttributeError@attr", lambda exp: False))
+        # unrepaired: the stale value of the inner label wrapper; the model mirrors the repaired code, so (A) waits for the repair
+        out.append(("%s:label-not-last" % kind, lambda how, err, exp: True, lambda exp: acc["a"] in ("feats", "label")))
     if case.get("_order_hit"):
         out.append(("dense:header-map-order", lambda how, err, exp: True))
     if enccat_on_lazy(case):
@@ -1225,6 +1241,8 @@ def classify(case, acc, exp, got):
     kind / access / symptom / outermost stage.  acc is None for table-level failures (pipeline raised, row count)."""
     kind = case["kind"]
     err = got.get("e") if isinstance(got, dict) else None
+    if err and got.get("at"):
+        err += "@" + got["at"]
     how = "raises" if err else ("no-raise" if (exp and "e" in exp) else "wrong")
     for a in areas(case, acc):
         if a[1](how, err, exp or {}):
@@ -1238,7 +1256,7 @@ def suspended(case, acc, exp=None):
     """(A) is not compared where an *open* recorded defect makes the unrepaired code differ from the model of the repaired code
     (exp = what the eager row gives for the access; None for the table as a whole)"""
     for a in areas(case, acc):
-        if a[0].endswith(":label-not-last") or not open_sig(a[0]):
+        if not open_sig(a[0]):
             continue
         if len(a) < 3 or a[2](exp):
             return True
@@ -2078,7 +2096,8 @@ class C13(Property):
             reqs = [None] * len(tabs)
             if driver is not None:
                 # one request: the model's `session` sends the tables through one set of filter objects too (theorem filter_stateless)
-                reqs = [dict(to_model(dict(t, acc=[strip(a) for a in t["acc"]]), et, real.get("n")), pre=t["pre"]) for t, (real, et) in zip(tabs, runs)]
+                # copy steps go to the model as `Acc.clone` (theorems access_after_clone / clone_is_transparent: the model answers as without them)
+                reqs = [dict(to_model(t, et, real.get("n")), pre=t["pre"]) for t, (real, et) in zip(tabs, runs)]
                 if any(t.get("nested") for t in tabs):
                     answers, reqs = [None] * len(tabs), [None] * len(tabs)
                     driver = None
@@ -2389,6 +2408,9 @@ def acc_to_model(e, acc, plain_obj):
             except Undefined:
                 fe = None
         return {"a": "feats", "sub": acc_to_model(fe, acc["sub"], False)}
+    if a == "clone":
+        sub = acc_to_model(e, acc["sub"], plain_obj)
+        return {"a": "skip"} if is_skip(sub) else {"a": "clone", "sub": sub}
     if a == "eq":
         o = None if plain_obj else other_side(e, acc)
         return {"a": "eq", "other": o} if o is not None else {"a": "skip"}
@@ -2405,7 +2427,7 @@ def to_model(case, et, n_real):
 
 
 def is_skip(a):
-    return a.get("a") == "skip" or (a.get("a") == "feats" and is_skip(a["sub"]))
+    return a.get("a") == "skip" or (a.get("a") in ("feats", "clone") and is_skip(a["sub"]))
 
 
 def uniq_sorted(xs):
